@@ -24,6 +24,7 @@ type c12File struct {
 	depth int
 	name  string
 	body  string
+	path  string // if set: the path below the directory (category/name/variant), instead of the usual components
 }
 
 var c12Names = []struct{ name, body string }{
@@ -67,6 +68,9 @@ func c12BigBody(n int) string {
 var c12Comps = []string{"License", "Foo", "sub", "deep"}
 
 func (f c12File) rel() string {
+	if f.path != "" {
+		return f.path
+	}
 	parts := append([]string(nil), c12Comps[:f.depth-1]...)
 	parts = append(parts, f.name)
 	return filepath.Join(parts...)
@@ -105,15 +109,21 @@ func c12Trees(c *vrep.Ctx) {
 	var options []c12File
 	for d := 1; d <= 5; d++ {
 		for _, n := range c12Names {
-			options = append(options, c12File{d, n.name, n.body})
+			options = append(options, c12File{depth: d, name: n.name, body: n.body})
 		}
 		if d == 3 {
 			for _, n := range c12Big {
-				options = append(options, c12File{d, n.name, n.body})
+				options = append(options, c12File{depth: d, name: n.name, body: n.body})
 			}
 			// symbolic links to regular files kept elsewhere (a licenses directory assembled from
 			// links): one with a short body, one with a 5 KB body; the link itself is a few bytes
-			options = append(options, c12File{d, "link.txt", "\x00LINK:" + c12LinkShort}, c12File{d, "linkbig.txt", "\x00LINK:" + c12BigBody(5000)})
+			// names that are not valid UTF-8 (a tree unpacked from an ISO-8859-1 archive): the variant file,
+			// the license directory, the category directory
+			options = append(options,
+				c12File{depth: d, name: "v\xe7.txt", body: "gg hh ii gg hh zqa"},
+				c12File{depth: d, name: "n.txt", body: "jj kk ll jj kk zqa", path: "License/Licen\xe7a/n.txt"},
+				c12File{depth: d, name: "c.txt", body: "mm nn oo mm nn zqa", path: "Cat\xe9gorie/Foo/c.txt"})
+			options = append(options, c12File{depth: d, name: "link.txt", body: "\x00LINK:" + c12LinkShort}, c12File{depth: d, name: "linkbig.txt", body: "\x00LINK:" + c12BigBody(5000)})
 		}
 	}
 	// the third directory name is made of characters that mean something in a file-name pattern
@@ -121,7 +131,7 @@ func c12Trees(c *vrep.Ctx) {
 	leaves := []string{"corp", "nest/ed", "co[1]p*"}
 	patFiles := c.Pick(1, 2)
 	queries := [][]byte{[]byte("zqa aa bb cc aa bb zqb"), []byte("zqa cc bb aa cc bb aa"), []byte("gg hh ii gg hh\njj kk ll jj kk"), []byte("zqa")}
-	c.R.Rule = fmt.Sprintf("all sets of <=%d files drawn from depth 1..5 x names {a.txt, b.txt, x.md, txt, y.ptxt, empty e.txt, 0.txt (sorts before the directories), a directory named dir.txt} plus 66 KB, 135 KB and 1.05 MB files and two symbolic links to regular files outside the tree (short and 5 KB targets) at variant depth (%d options), built in a private temp dir, x %d spellings of the directory (absolute/relative, ./ prefix, trailing separator, doubled separator, through .., and '.', './', '../name' with the directory as cwd) x {single, multi-component, pattern-character} directory name (the last with siblings its name would match as a pattern); LoadLicenses must not panic or fail; files shallower than category/name/variant or not ending in 'txt' are ignored; if every remaining file sits at depth 3 the corpus (keys and word sequences, white-box) and Match on a query menu equal a classifier built by AddContent per file; non-trivial = distinct (tree, spelling) cases with at least one loadable file", maxFiles, len(options), len(c12Spellings))
+	c.R.Rule = fmt.Sprintf("all sets of <=%d files drawn from depth 1..5 x names {a.txt, b.txt, x.md, txt, y.ptxt, empty e.txt, 0.txt (sorts before the directories), a directory named dir.txt} plus 66 KB, 135 KB and 1.05 MB files two symbolic links to regular files outside the tree (short and 5 KB targets) and three files whose variant / license / category name is not valid UTF-8 at variant depth (%d options), built in a private temp dir, x %d spellings of the directory (absolute/relative, ./ prefix, trailing separator, doubled separator, through .., and '.', './', '../name' with the directory as cwd) x {single, multi-component, pattern-character} directory name (the last with siblings its name would match as a pattern); LoadLicenses must not panic or fail; files shallower than category/name/variant or not ending in 'txt' are ignored; if every remaining file sits at depth 3 the corpus (keys and word sequences, white-box) and Match on a query menu equal a classifier built by AddContent per file; non-trivial = distinct (tree, spelling) cases with at least one loadable file", maxFiles, len(options), len(c12Spellings))
 	c.Bound("max_files", maxFiles)
 	c.Bound("spellings", len(c12Spellings))
 	tmp, err := os.MkdirTemp("", "verif-c12-")
@@ -216,7 +226,12 @@ func c12Trees(c *vrep.Ctx) {
 				comparable = false
 				continue
 			}
-			want.AddContent(c12Comps[0], c12Comps[1], f.name, []byte(f.body))
+			if f.path != "" {
+				seg := strings.Split(f.path, "/")
+				want.AddContent(seg[0], seg[1], seg[2], []byte(f.body))
+			} else {
+				want.AddContent(c12Comps[0], c12Comps[1], f.name, []byte(f.body))
+			}
 		}
 		os.Chdir(parent)
 		if sp.in {
